@@ -57,6 +57,9 @@ func calculateOptimalBufferSize(mjmlContent string) int {
 	}
 }
 
+// defaultASTCacheCleanupInterval is used when the configured interval is not positive.
+const defaultASTCacheCleanupInterval = 150 * time.Second
+
 // cachedAST wraps an MJML AST with a fixed expiration time.
 // Entries are immutable once stored in the cache to avoid concurrent mutation.
 type cachedAST struct {
@@ -277,6 +280,11 @@ func startASTCacheCleanup() {
 		interval := astCacheCleanupInterval
 		cacheConfigMutex.RUnlock()
 
+		if interval <= 0 {
+			// time.NewTicker panics on non-positive durations; fall back to the
+			// default so a tiny or zero TTL cannot take the process down.
+			interval = defaultASTCacheCleanupInterval
+		}
 		ticker := time.NewTicker(interval)
 		defer ticker.Stop()
 		for {
